@@ -636,6 +636,18 @@ _NSP = contract(
     runtime=Runtime(lambda rng, n: [], lambda d: {"s": d["s"], "allowSpaces": d["allowSpaces"]}),
 )
 
+# the `function` clause alone (a sub-contract of the one above: fewer clauses, nothing new), for callers that only need the value
+# and are slowed down by the quantified `chars` clause
+contract(
+    f"{MOD}:normalizeStringForPostscript",
+    name="function",
+    props=[],
+    params={"s": STR, "allowSpaces": BOOL},
+    returns=STR,
+    ensures={"function": _NSP.ensures["function"]},
+    notes="the `function` clause of normalizeStringForPostscript (discharged by enumeration in vcheck/hooks/c16.py)",
+)
+
 contract(
     f"{MOD}:normalizeNameForPostscript",
     props=P,
